@@ -771,6 +771,10 @@ class MarkdownNormalizer(Renderer):
         from marko.ext.pangu import PANGU_RE
 
         text = re.sub(PANGU_RE, " ", element.children)
+        if self._in_heading and "\n" in text:
+            # A line end the parser left in the text (after a bare URL that took the backslash
+            # of `\` + newline into the link): a heading is written on one line.
+            text = text.replace("\n", " ")
         self._current_inline_text += text
         return text
 
@@ -791,6 +795,10 @@ class MarkdownNormalizer(Renderer):
         else:
             # A soft break separates words like a space does.
             self._current_inline_text += " "
+            if self._in_heading:
+                # A (setext) heading becomes a one-line ATX heading. Done here, where the break
+                # is known to be soft even after a URL that ends in a backslash.
+                return " "
         return "\n" if element.soft else "\\\n"
 
     def render_code_span(self, element: inline.CodeSpan) -> str:
